@@ -96,7 +96,7 @@ Cap(f) ==
           multiver |-> FALSE, keyed |-> TRUE, sects |-> 2, variants |-> {"-"}, stanza |-> FALSE, nested |-> FALSE]
     [] f = "packageslockjson" ->
          [crlf |-> TRUE, trailing |-> AllTrail, comments |-> {"none"}, notinst |-> FALSE,
-          multiver |-> FALSE, keyed |-> TRUE, sects |-> 2, variants |-> {"-"}, stanza |-> FALSE, nested |-> FALSE]
+          multiver |-> TRUE, keyed |-> TRUE, sects |-> 2, variants |-> {"-"}, stanza |-> FALSE, nested |-> FALSE]
 
 -----------------------------------------------------------------------------
 VARIABLES fmt,      \* the format of the document
@@ -128,6 +128,9 @@ KeyClash(rs, s) ==
      \/ j < k /\ rs[j].n = rs[k].n /\ Place(j, s) = Place(k, s)
      \/ Place(k, s) = j /\ rs[j].n = rs[k].n
 
+\* keyed formats without nesting: the two sections are two maps, a name occurs at most once in each
+SectClash(rs, s) == \E j, k \in 1..Len(rs) : j < k /\ rs[j].n = rs[k].n /\ InSecond(j, s) = InSecond(k, s)
+
 Layouts(f, rs) ==
   LET c == Cap(f)
       len == Len(rs) IN
@@ -141,6 +144,7 @@ Layouts(f, rs) ==
                           \cup (IF (c.nested /\ len >= 3) \/ (~c.nested /\ len >= 1) THEN {3} ELSE {}),
           variant : c.variants] :
      /\ c.nested => ~KeyClash(rs, l.sect)
+     /\ (c.keyed /\ ~c.nested) => ~SectClash(rs, l.sect)
      /\ Reduce => /\ l.comments # "none" => l.sect = 0
                   /\ l.variant = "v2" => l.eol = "LF" /\ l.trailing = "nl"}
 
